@@ -44,6 +44,7 @@ def expand(node: Node):
         if reference.content not in ids:
             msg = f"ID not found for REFERENCE '{reference}'"
             raise ValueError(msg)
+    for reference in references:
         source_node = ids[reference.content]
         destination_node = reference.parent
         destination_node.remove_child(reference)
